@@ -89,9 +89,205 @@ def Admissible (cfg : Cfg) : List Nat → Arena → List Req → Prop
     AllocFresh cfg nb a q.b q.fill.length ∧ (a.bufAt q.b).data.length + q.fill.length < 2 ^ 32 ∧
       ∀ a1 r, allocMem cfg nb a q.b q.zero q.fill = .ok (a1, r) → Admissible cfg nbs a1 qs
 
+/-! ## the address-free abstract machine (C19)
+
+An abstract arena is what `abs` extracts from a concrete one: every buffer's bytes, with each registered
+8-byte slot holding the *reference* (buffer, offset) its pointer denotes, and the list of registered
+slots.  No address, capacity, initial size or allocator answer appears.  `astep` is the effect of one
+client operation on it and what the client observes; it is *undefined* (none) exactly when the
+operation leaves the protocol under which clients use an arena:
+
+* allocations go to existing buffers and keep them below 4 GB;
+* a slot is registered (make_ptr_relocatable) only if it lies inside used bytes, overlaps no registered
+  slot and currently holds NULL — or a valid pointer is stored into it right before / after the
+  registration with no allocation in between (`regPtr`); a pointer is written and registered in one step
+  by `ptr` (write_data(&p) + make_ptr_relocatable) and must then point into another buffer (no raw
+  pointer is kept across an allocation of the buffer it points into);
+* a pointer stored into a registered slot is NULL or points to a used byte;
+* memcpy into allocated memory (`poke`) stays inside used bytes and touches no registered slot;
+* queries are made on registered slots / on references to used bytes. -/
+
+abbrev AArena := List Bytes × List Ref
+
+def aBody (x : AArena) (b : Nat) : Bytes := x.1.getD b []
+
+/-- what an allocation does to the abstract arena: the bytes are appended to the buffer's body -/
+def absAppend (x : AArena) (b : Nat) (f : Bytes) : AArena := (x.1.modify b (· ++ f), x.2)
+
+/-- the 8 bytes of slot `s` become the image of `v` -/
+def aSet (x : AArena) (s : Ref) (v : Nat) : AArena := (x.1.modify s.buf (fun d => wr64 d s.off v), x.2)
+
+/-- `s` is appended to the list of registered slots -/
+def aReg (x : AArena) (s : Ref) : AArena := (x.1, x.2 ++ [s])
+
+/-- null, or a reference to a used byte of an existing buffer -/
+def ATarget (x : AArena) : Option Ref → Bool
+  | none => true
+  | some t => decide (t.buf < x.1.length) && decide (t.off < (aBody x t.buf).length)
+
+/-- the bytes [off, off+len) of buffer `b` touch no registered slot -/
+def aFree (x : AArena) (b off len : Nat) : Bool :=
+  x.2.all (fun r => decide (r.buf ≠ b) || decide (r.off + 8 ≤ off) || decide (off + len ≤ r.off))
+
+def aAlloc (x : AArena) (b : Nat) (fill : Bytes) : Option (AArena × Ref) :=
+  if b < x.1.length ∧ (aBody x b).length + fill.length < 2 ^ 32 then
+    some (absAppend x b fill, ⟨b, (aBody x b).length⟩)
+  else none
+
+/-- registering the slot at offset `o` of buffer `b`, which holds NULL: it now holds the null reference -/
+def aReloc (x : AArena) (b o : Nat) : Option AArena :=
+  if b < x.1.length ∧ o + 8 ≤ (aBody x b).length ∧ aFree x b o 8 = true ∧ rd64 (aBody x b) o = 0 then
+    some (aReg (aSet x ⟨b, o⟩ nullRefVal) ⟨b, o⟩)
+  else none
+
+def aRelocs (b base : Nat) : AArena → List Nat → Option AArena
+  | x, [] => some x
+  | x, o :: os =>
+    match aReloc x b (base + o) with
+    | some x1 => aRelocs b base x1 os
+    | none => none
+
+/-- one client operation on the abstract arena: (arena afterwards, what the client observes), or none if
+    the operation is outside the protocol -/
+def astep (x : AArena) : Op → Option (AArena × Out)
+  | .write b bytes =>
+      match aAlloc x b bytes with
+      | some (x1, r) => some (x1, .ref r)
+      | none => none
+  | .zalloc b size =>
+      match aAlloc x b (zeros size) with
+      | some (x1, r) => some (x1, .ref r)
+      | none => none
+  | .struct b size offs =>
+      match aAlloc x b (zeros size) with
+      | some (x1, r) =>
+        match aRelocs b r.off x1 offs with
+        | some x2 => some (x2, .ref r)
+        | none => none
+      | none => none
+  | .reloc b off =>
+      match aReloc x b off with
+      | some x1 => some (x1, .unit)
+      | none => none
+  | .setPtr slot target =>
+      if slot ∈ x.2 ∧ ATarget x target = true then some (aSet x slot (encRef target), .unit) else none
+  | .ptr b target =>
+      if ATarget x target = true ∧ (∀ t, target = some t → t.buf ≠ b) then
+        match aAlloc x b (leBytes 8 (encRef target)) with
+        | some (x1, r) => some (aReg x1 r, .ref r)
+        | none => none
+      else none
+  | .poke at_ bytes =>
+      if at_.buf < x.1.length ∧ at_.off + bytes.length ≤ (aBody x at_.buf).length ∧ aFree x at_.buf at_.off bytes.length = true then
+        some ((x.1.modify at_.buf (fun d => wrBytes d at_.off bytes), x.2), .unit)
+      else none
+  | .ref slot =>
+      if slot ∈ x.2 then some (x, .found (decRef (rd64 (aBody x slot.buf) slot.off))) else none
+  | .rt target =>
+      if ATarget x target = true then some (x, .found target) else none
+  | .regPtr slot target =>
+      if slot.buf < x.1.length ∧ slot.off + 8 ≤ (aBody x slot.buf).length ∧ aFree x slot.buf slot.off 8 = true ∧ ATarget x target = true then
+        some (aReg (aSet x slot (encRef target)) slot, .unit)
+      else none
+
+/-- a sequence of operations on the abstract arena with everything the client observes -/
+def arun : AArena → List Op → Option (AArena × List Out)
+  | x, [] => some (x, [])
+  | x, op :: ops =>
+    match astep x op with
+    | none => none
+    | some (x1, o) =>
+      match arun x1 ops with
+      | none => none
+      | some (x2, os) => some (x2, o :: os)
+
+/-- **the protocol**, as a decidable predicate on an operation sequence (given the abstract content it starts from) -/
+def OpsOK (x : AArena) (ops : List Op) : Bool := (arun x ops).isSome
+
+/-- the abstract content of a freshly created arena of `n` buffers -/
+def aCreate (n : Nat) : AArena := (List.replicate n [], [])
+
+/-- (buffer, size) of the allocation an operation performs, if any -/
+def opAlloc : Op → Option (Nat × Nat)
+  | .write b bytes => some (b, bytes.length)
+  | .zalloc b size => some (b, size)
+  | .struct b size _ => some (b, size)
+  | .ptr b _ => some (b, 8)
+  | _ => none
+
+/-- the allocator's answer to this operation (looked at only if the operation allocates and the buffer grows) is admissible -/
+def StepFresh (cfg : Cfg) (nb : Nat) (a : Arena) (op : Op) : Prop :=
+  match opAlloc op with
+  | some (b, size) => AllocFresh cfg nb a b size
+  | none => True
+
+/-- every answer of the allocator along the concrete run is admissible: an **arbitrary admissible realloc schedule** -/
+def AdmRun (cfg : Cfg) : List Nat → Arena → List Op → Prop
+  | _, _, [] => True
+  | nbs, a, op :: ops =>
+    StepFresh cfg (nbs.headD 0) a op ∧
+      ∀ a1 o, exec cfg (nbs.headD 0) a op = .ok (a1, o) → AdmRun cfg nbs.tail a1 ops
+
+/-! ## never-cleared memory
+
+`_yr_arena_allocate_memory` clears memory only on the growth path, so a zeroed allocation served from spare
+capacity left by a *raw* growth returns whatever realloc left there: the model flags this (`unspec`) instead of
+inventing contents.  The side condition under which it cannot happen is a property of the op list alone. -/
+
+/-- the buffer that receives a raw (not zeroed) allocation -/
+def opRaw : Op → Option Nat
+  | .write b _ => some b
+  | .ptr b _ => some b
+  | _ => none
+
+def opZeroed : Op → Option Nat
+  | .zalloc b _ => some b
+  | .struct b _ _ => some b
+  | _ => none
+
+/-- no zeroed allocation goes to a buffer that earlier received a raw allocation (`raws`: those so far) -/
+def KindsOK : List Nat → List Op → Bool
+  | _, [] => true
+  | raws, op :: ops =>
+    (match opZeroed op with
+     | some b => !raws.contains b
+     | none => true) &&
+    KindsOK (match opRaw op with | some b => b :: raws | none => raws) ops
+
+def DirtyIn (a : Arena) (raws : List Nat) : Prop := ∀ j, (a.bufAt j).dirty = true → j ∈ raws
+
+instance (a : Arena) (b newBase nc : Nat) : Decidable (Fresh a b newBase nc) :=
+  decidable_of_iff
+    (newBase ≠ 0 ∧ ((a.bufAt b).data.length ≤ nc ∧ newBase + nc ≤ 2 ^ 64) ∧
+      (∀ j, j < a.bufs.length → j ≠ b → (a.bufAt j).base = 0 ∨ newBase + nc ≤ (a.bufAt j).base ∨ (a.bufAt j).base + (a.bufAt j).cap ≤ newBase) ∧
+      (newBase = (a.bufAt b).base ∨ (a.bufAt b).base = 0 ∨ newBase + nc ≤ (a.bufAt b).base ∨ (a.bufAt b).base + (a.bufAt b).cap ≤ newBase))
+    ⟨fun ⟨h1, h2, h3, h4⟩ => ⟨h1, h2, h3, h4⟩, fun h => ⟨h.nonnull, h.fits, h.others, h.old⟩⟩
+
+instance (cfg : Cfg) (a : Arena) (b size : Nat) : Decidable (Grows cfg a b size) := by unfold Grows; exact inferInstance
+instance (cfg : Cfg) (nb : Nat) (a : Arena) (b size : Nat) : Decidable (AllocFresh cfg nb a b size) := by
+  unfold AllocFresh; exact inferInstance
+instance (cfg : Cfg) (nb : Nat) (a : Arena) (op : Op) : Decidable (StepFresh cfg nb a op) := by
+  unfold StepFresh
+  cases opAlloc op with
+  | none => exact inferInstance
+  | some p => exact inferInstance
+
+/-- executable form of `AdmRun` (sound: Lemmas/ArenaExec.lean `admRun_of_check`) -/
+def admCheck (cfg : Cfg) : List Nat → Arena → List Op → Bool
+  | _, _, [] => true
+  | nbs, a, op :: ops =>
+    decide (StepFresh cfg (nbs.headD 0) a op) &&
+      match exec cfg (nbs.headD 0) a op with
+      | .ok (a1, _) => admCheck cfg nbs.tail a1 ops
+      | .error _ => true
+
 instance (bufs : List Buf) (v : Nat) : Decidable (ValidPtr bufs v) := by unfold ValidPtr; exact inferInstance
 instance (b c : Buf) : Decidable (Apart b c) := by unfold Apart; exact inferInstance
 instance (r s : Ref) : Decidable (NoOverlap r s) := by unfold NoOverlap; exact inferInstance
+instance (bufs : List Buf) : Decidable (RangesOk bufs) :=
+  decidable_of_iff
+    ((∀ b ∈ bufs, b.data.length ≤ b.cap ∧ b.base + b.cap ≤ 2 ^ 64) ∧ (∀ b ∈ bufs, b.base = 0 → b.cap = 0) ∧ bufs.Pairwise Apart)
+    ⟨fun ⟨h1, h2, h3⟩ => ⟨h1, h2, h3⟩, fun h => ⟨h.fits, h.null, h.apart⟩⟩
 instance (a : Arena) (rs : List Ref) : Decidable (SlotsOk a rs) := by unfold SlotsOk; exact inferInstance
 
 /-- buffer `i` placed at address `f i` (unallocated buffers stay unallocated) -/
